@@ -46,8 +46,14 @@ class C13(vlib.PropertyCheck):
                        '(quick: every k <= 11 and one seed-chosen length with k in 12..14 for the helpers whose list model is '
                        'quadratic, every k for the others); a case is non-trivial when the model result is not a '
                        'refusal/fault and the string argument is non-empty or a boundary (size 1, empty string); '
+                       'exact-fit stratum: destinations with no NUL inside `size` bytes whose block ends there, sources with no '
+                       'terminator of exactly the bytes the helper may read (strncpyr/strncatr), safe_str on exactly len cells, size '
+                       'arguments equal to / one less / one more than the block, every such case both as an exactly sized heap block '
+                       'and (case word pg) at the end of a page followed by a PROT_NONE page; '
                        'distinct = distinct case lines')
-    assumptions = ['inputs are valid C strings in exactly sized heap blocks (the harness allocates them so)',
+    assumptions = ['inputs are valid C strings in exactly sized blocks, or (strncpyr/strncatr, safe_strncat destinations, safe_str) '
+                   'unterminated blocks of exactly the bytes the contract lets the helper read; the harness allocates them so, '
+                   'on the heap and at the end of a page in front of a PROT_NONE page',
                    'object sizes below 2^31', '"C" locale character classes']
 
     MANIFEST = dict(
@@ -58,7 +64,16 @@ class C13(vlib.PropertyCheck):
               'current tree by running its extracted OCaml form and the ASan build of src/strings.c on the same exhaustively enumerated '
               'small cases (strings over {a, space, newline, 0x80, 0x01, A} and the high-bit twins 0xe1, 0xa0, 0x8a, 0xc1), every byte '
               'value through every helper, sizes/counts/lengths 2^k-1, 2^k, 2^k+1 up to 16385 and random long strings over all byte '
-              'values; a mismatch on an observable the property constrains is a failing input.'),
+              'values; a mismatch on an observable the property constrains is a failing input. Exact-fit part (C13_exactfit.v: '
+              'C13_safe_strncat_full_exact_block, C13_safe_strncpy_unterminated_source, C13_safe_strncat_unterminated_source, '
+              'C13_safe_str_exact_block): a destination with no NUL within `size` bytes is refused after exactly `size` bytes were '
+              'looked at, a source without a terminator is read for at most `size` bytes, safe_str needs exactly len cells - in the '
+              'model a buffer ends where its block ends and any access beyond is a Fault, so these hold with NOTHING behind the '
+              'permitted range.  The check runs those shapes (all sizes 1..5 (7 thorough) x block = size-1, size, size+1 x every '
+              'terminator position x source lengths 0..size+1; then every length 1..9 and 2^k-1, 2^k, 2^k+1 up to 16385) twice: in '
+              'exactly sized malloc blocks under ASan and, with the case word pg, with destination AND source at the end of a '
+              'page that is followed by a PROT_NONE page, where an over-read inside an uninstrumented libc routine is a SIGSEGV; '
+              'a few sizes per helper are one MORE than the block and must fault on both sides.'),
         design_ref='DESIGN.md section 7, C13')
 
     def gen(self, tier, rng):
@@ -131,6 +146,153 @@ class C13(vlib.PropertyCheck):
             else:
                 cases.append('%s %s' % (op, hx(s + [0])))
         cases += self.boundary_cases(tier, rng)
+        cases += self.exactfit_cases(tier, rng)
+        return cases
+
+    # lengths at which a case that MUST fault on both sides (size one more than the block, source one short) is
+    # generated: each one costs a sanitizer report and a restart of the harness, and vlib stops after 150 of them
+    FAULT_LENGTHS = (1, 2, 3, 8, 64, 4096)
+
+    def exactfit_cases(self, tier, rng):
+        """Blocks that end EXACTLY where the contract lets the helper stop looking: no terminator inside the permitted
+        range and nothing behind it.  Every helper, destination and source, size argument equal to / one less than /
+        one more than the block, as an exactly sized heap block (redzone behind it) and, with the case word `pg`, at the
+        end of a page followed by a PROT_NONE page.  The model already treats any access beyond the block as a fault,
+        so the expected results need nothing new: an implementation that measures a destination with strlen instead of
+        strnlen, reads the source before testing the room, or looks at str[len] gives the right answer and faults."""
+        cases = []
+        quick = (tier == 'quick')
+        small = list(range(1, 10))
+        p11 = [x for x in pow2_lengths(11) if x >= 1]
+        big = [x for x in pow2_lengths(KMAX, 12) if x not in p11]
+        lin = sorted(set(small + p11 + big))                       # linear model cost: every length in both tiers
+        quad = sorted(set(small + p11 + ([rng.choice(big)] if quick else big)))
+
+        def both(c, pg=True):
+            cases.append(c)
+            if pg:
+                cases.append('pg ' + c)
+
+        def ctl(n, salt=0):
+            """n NUL-free bytes, every fourth one a control character or DEL (what safe_str rewrites)"""
+            b = pat(n, salt)
+            for j in range(0, n, 4):
+                b[j] = (0x01, 0x1f, 0x7f, 0x0a, 0x09)[(j // 4) % 5]
+            return b
+
+        # --- exhaustive small stratum: size 1..6, destination = k text bytes then either nothing (k = block size: no
+        #     terminator anywhere) or a NUL and filler up to the block size; block = size - 1, size, size + 1;
+        #     source lengths 0..size + 1 in both forms
+        top = 5 if quick else 7
+        for size in range(1, top + 1):
+            for blk in (size - 1, size, size + 1):
+                if blk < 1:
+                    continue
+                dests = [[0x64] * blk]                                                  # no NUL in the whole block
+                dests += [[0x64] * k + [0] + [None] * (blk - k - 1) for k in range(blk)]  # NUL at k, tail never written
+                dests += [[0x64] * k + [0] + [0x7a] * (blk - k - 1) for k in range(blk - 1)]
+                for d in dests:
+                    text = d.index(0) if 0 in d else blk
+                    for sl in range(0, size + 2):
+                        # skip what must fault on both sides (kept to FAULT_LENGTHS below): the write of the
+                        # terminator or the scan for it leaves the block
+                        end_cat = min(text + sl, size - 1) if text < size else None
+                        cat_ok = (text >= size and blk >= size) or (text < size and end_cat < blk)
+                        cpy_ok = min(sl, size - 1) < blk
+                        if cat_ok:
+                            both('strncat %d %s %s' % (size, hx(pat(sl, 7)), cells(d)))
+                        if cpy_ok and d is dests[0]:
+                            both('strncpy %d %s %s' % (size, hx(pat(sl, 8)), cells([None] * blk)))
+                    # raw sources: a block of exactly the bytes the helper may read, one more, (one less: faults)
+                    room = size - text if text < size else 0
+                    if room >= 1 and size - 1 < blk:
+                        for extra in (0, 1):
+                            both('strncatr %d %s %s' % (size, hx(pat(room + extra, 9)), cells(d)))
+                if blk >= size:
+                    for extra in (0, 1):
+                        both('strncpyr %d %s %s' % (size, hx(pat(size + extra, 10)), cells([None] * blk)))
+        # --- safe_strncat on a destination with no terminator within `size` bytes (and none behind: block = size),
+        #     every length; size one less (the last byte is text too) and, at a few lengths, one more (must fault)
+        for B in lin:
+            d = hx(pat(B, 11))
+            for src in ('-', '61', hx(pat(5, 12))) if B <= 65 else ('61',):
+                both('strncat %d %s %s' % (B, src, d), pg=(B <= 65 or B in p11 or not quick or src == '61'))
+                if B >= 2:
+                    both('strncat %d %s %s' % (B - 1, src, d), pg=(B <= 65))
+            if B in self.FAULT_LENGTHS:
+                both('strncat %d 61 %s' % (B + 1, d))
+            # terminator in the very last cell of the range: empty source fits (also with size one more than the
+            # block: the only cell written is the last one), one byte does not
+            dz = hx(pat(B - 1, 13) + [0])
+            both('strncat %d - %s' % (B, dz), pg=(B <= 65 or B in p11))
+            both('strncat %d - %s' % (B + 1, dz), pg=(B <= 65 or B in p11))
+            both('strncat %d 61 %s' % (B, dz), pg=(B <= 65))
+            if B in self.FAULT_LENGTHS:
+                both('strncat %d 61 %s' % (B + 1, dz))
+        # --- safe_strncpy / safe_strncat with a source block that ends where the helper stops reading (quadratic model)
+        for B in quad:
+            dn = cells([None] * B)
+            heavy = B > 2049
+            both('strncpyr %d %s %s' % (B, hx(pat(B, 14)), dn), pg=not heavy)
+            if not heavy:
+                both('strncpyr %d %s %s' % (B, hx(pat(B + 1, 15)), dn), pg=(B <= 65))
+                for dl in sorted(set([0, 1, B // 2, B - 1])):
+                    if dl < B:
+                        dd = cells(pat(dl, 16) + [0] + [None] * (B - dl - 1))
+                        both('strncatr %d %s %s' % (B, hx(pat(B - dl, 17)), dd), pg=(B <= 65 or dl == B // 2))
+                # size against block: one less (last cell untouched), equal, and one more with a source that still fits
+                for size, sl in ((B - 1, B), (B, B), (B + 1, B - 1), (B + 1, max(B - 2, 0))):
+                    if size >= 1:
+                        both('strncpy %d %s %s' % (size, hx(pat(sl, 18)), dn), pg=(B <= 65))
+            if B in self.FAULT_LENGTHS:
+                if B >= 2:
+                    both('strncpyr %d %s %s' % (B, hx(pat(B - 1, 19)), dn))        # source one byte short: read fault
+                both('strncpy %d %s %s' % (B + 1, hx(pat(B, 20)), dn))             # terminator lands behind the block
+        # --- safe_str: exactly `len` cells, no terminator, control characters and DEL among them
+        for B in lin:
+            if B > 65535:
+                continue
+            both('safestr %d %s' % (B, hx(ctl(B, 21))), pg=(B <= 65 or B in p11 or not quick))
+            if B >= 2:
+                both('safestr %d %s' % (B - 1, hx(ctl(B, 22))), pg=(B <= 65))
+            if B in self.FAULT_LENGTHS:
+                both('safestr %d %s' % (B + 1, hx(ctl(B, 23))))
+        if not quick:
+            both('safestr 65535 %s' % hx(ctl(65535, 24)))
+        # --- the terminator-bounded helpers with the terminator in the last cell of the block, at the end of a page
+        #     (the heap placement of the same shapes is in boundary_cases and in the exhaustive strata)
+        for B in lin:
+            base = pat(B, 25)
+            for j, c in zip((0, B // 2, B - 1), (0x41, 0xe1, 0x7a)):
+                if 0 <= j < B:
+                    base[j] = c
+            h = hx(base + [0])
+            for op in ('down', 'up', 'chomp'):
+                cases.append('pg %s %s' % (op, h))
+            cases.append('pg chomp %s' % hx([0x20, 0x09] + base + [0x0a, 0x20, 0]))
+            cases.append('pg substr 0 %d %s' % (B, hx(base)))
+            cases.append('pg substr -1 5 %s' % hx(base))
+            cases.append('pg substr 1 2147483647 %s' % hx(base))
+        for B in quad:
+            if B <= 2049 or not quick:
+                cases.append('pg strrev %s' % hx(pat(B, 26) + [0]))
+        # the empty string and one-character strings: terminator is the only / second cell before the guard page
+        for op in ('down', 'up', 'chomp', 'strrev'):
+            cases.append('pg %s 00' % op)
+            for c in (0x20, 0x0a, 0x61, 0x41, 0xa0, 0xe1):
+                cases.append('pg %s %s' % (op, hx([c, 0])))
+                cases.append('pg %s %s' % (op, hx([c, c, 0])))
+        for idx in (-2, -1, 0, 1, 2):
+            for cnt in (-2, -1, 0, 1, 2):
+                cases.append('pg substr %d %d -' % (idx, cnt))
+                cases.append('pg substr %d %d 61' % (idx, cnt))
+                cases.append('pg substr %d %d 6162' % (idx, cnt))
+        # all strings up to length 3 over the alphabet through the in-place helpers at the end of a page
+        for s in strings_upto(3, ALPHA_T):
+            h = hx(s + [0])
+            for op in ('down', 'up', 'chomp', 'strrev'):
+                cases.append('pg %s %s' % (op, h))
+            cases.append('pg safestr %d %s' % (len(s) + 1, h))
         return cases
 
     def boundary_cases(self, tier, rng):
